@@ -4,7 +4,9 @@ CONSTANTS
   Versions = {"A", "B"}
   MaxWrites = 100000000
   Probes = 5
+  Builders = {100, 101, 102}
+  MaxBuilds = 100000000
 CONSTRAINT HW
-INVARIANTS ReaderSingleVersion
+INVARIANTS ReaderSingleVersion BuildIsolated
 POSTCONDITION Accepted
 CHECK_DEADLOCK FALSE
